@@ -11,8 +11,8 @@ CHECKS['C33'] = dict(
     binaries=['build/bin/c33'],
     quick=dict(runs=3200, workers=16, chunk=10, wall_cap=600),
     thorough=dict(runs=60000, workers=16, chunk=10, wall_cap=3000),
-    run_timeout=40,      # a run takes well under a second; a stuck next_prime() is a violation
-    exec_timeout=40,
+    run_timeout=60,      # a run takes a second or two; a stuck next_prime() is a violation
+    exec_timeout=45,
     shrink_ints=['n', 'limit'],
     expected_probes=['iterator_stepped_after_cache_cleared', 'gen_crosses_segment_boundary',
                      'size_changed_with_warm_cache', 'bounded_iterator_exhausted'],
